@@ -468,6 +468,30 @@ theorem rinv_addNames {st : St} (m t : Nat) (h : RInvW st m t) : RInv (addNames 
       · obtain ⟨x, y⟩ := h.idxMut p hp
         exact ⟨Dict.Known_create_mono _ _ _ x, Dict.Known_create_mono _ _ _ y⟩
 
+/-- a metric name created by a replicator of another shard: only the mutable part of the database-level
+metric dictionary grows -/
+theorem rinv_createMetric {st : St} (m : Nat) (h : RInv st) :
+    RInv { st with metric := st.metric.create m } := by
+  obtain ⟨a, b, c, d, e, f⟩ := h
+  constructor
+  · intro r hr; obtain ⟨x, y, z⟩ := a r hr; exact ⟨by simpa using x, y, z⟩
+  · intro p hp; obtain ⟨x, y⟩ := b p hp; exact ⟨by simpa using x, y⟩
+  · intro r hr; obtain ⟨x, y, z⟩ := c r hr; exact ⟨by simpa using x, y, z⟩
+  · intro p hp; obtain ⟨x, y⟩ := d p hp; exact ⟨by simpa using x, y⟩
+  · intro r hr; obtain ⟨x, y, z⟩ := e r hr; exact ⟨Dict.Known_create_mono _ _ _ x, y, z⟩
+  · intro p hp; obtain ⟨x, y⟩ := f p hp; exact ⟨Dict.Known_create_mono _ _ _ x, y⟩
+
+theorem rinv_createTagv {st : St} (m t : Nat) (h : RInv st) :
+    RInv { st with tagv := st.tagv.create (m, t) } := by
+  obtain ⟨a, b, c, d, e, f⟩ := h
+  constructor
+  · intro r hr; obtain ⟨x, y, z⟩ := a r hr; exact ⟨x, by simpa using y, z⟩
+  · intro p hp; obtain ⟨x, y⟩ := b p hp; exact ⟨x, by simpa using y⟩
+  · intro r hr; obtain ⟨x, y, z⟩ := c r hr; exact ⟨x, by simpa using y, z⟩
+  · intro p hp; obtain ⟨x, y⟩ := d p hp; exact ⟨x, by simpa using y⟩
+  · intro r hr; obtain ⟨x, y, z⟩ := e r hr; exact ⟨x, Dict.Known_create_mono _ _ _ y, z⟩
+  · intro p hp; obtain ⟨x, y⟩ := f p hp; exact ⟨x, Dict.Known_create_mono _ _ _ y⟩
+
 theorem rinv_applyWrite {st : St} (hr : st.phase = .running) (hok : okAt st .applyWrite) (h : RInv st) :
     RInv (doApplyWrite st) := by
   unfold doApplyWrite
@@ -555,6 +579,20 @@ theorem rinv_step (cfg : Cfg) {st : St} (e : Ev) (hok : okAt st e) (h : RInv st)
     · apply rinv_addNames
       obtain ⟨a, b, c, d, e, f⟩ := h
       exact ⟨a, b, c, d, fun r hr => Or.inl (e r hr), f⟩
+    · exact h
+  case foreignNames m t =>
+    split
+    · apply rinv_addNames
+      obtain ⟨a, b, c, d, e, f⟩ := h
+      exact ⟨a, b, c, d, fun r hr => Or.inl (e r hr), f⟩
+    · exact h
+  case foreignMetric m =>
+    split
+    · exact rinv_createMetric m h
+    · exact h
+  case foreignTagv m t =>
+    split
+    · exact rinv_createTagv m t h
     · exact h
   case applyTake =>
     split
